@@ -70,6 +70,17 @@ Theorem C12_fatal_and_ctx_arm_the_exit : forall st,
   h_shut (fst (hstep st EReadFatal)) = true /\ h_ctx (fst (hstep st ECtxDone)) = true.
 Proof. intros st. split; [exact (fatal_sets_shut st) | exact (ctxdone_sets_ctx st)]. Qed.
 
+(* the reader goroutine does not retry a timeout-class read error once the
+   session context has ended (for a context whose deadline passed, ReadFcall
+   fails with such an error at once, every time): it returns, arming the exit *)
+Theorem C12_reader_comes_to_rest : forall st,
+  (h_ctx st || h_closed st) = true -> h_shut (fst (hstep st EReadRetry)) = true.
+Proof. exact reader_stops. Qed.
+
+Theorem C12_read_timeout_harmless : forall st,
+  (h_ctx st || h_closed st) = false -> hstep st EReadRetry = (st, []).
+Proof. exact reader_retry_harmless. Qed.
+
 Theorem C12_flags_monotone : forall st e,
   (h_shut st = true -> h_shut (fst (hstep st e)) = true) /\
   (h_ctx st = true -> h_ctx (fst (hstep st e)) = true) /\
@@ -123,6 +134,8 @@ Print Assumptions C12_wrong_type.
 Print Assumptions C12_wrong_type_nonvacuous.
 Print Assumptions C12_exit_ready.
 Print Assumptions C12_fatal_and_ctx_arm_the_exit.
+Print Assumptions C12_reader_comes_to_rest.
+Print Assumptions C12_read_timeout_harmless.
 Print Assumptions C12_flags_monotone.
 Print Assumptions C12_after_close_pending.
 Print Assumptions C12_after_close_later.
